@@ -4,6 +4,7 @@
 package c08
 
 import (
+	"strings"
 	"bytes"
 	"fmt"
 	"math/big"
@@ -24,7 +25,7 @@ var R = hx.NewRecorder("C08", "cases = attacker catalogue x GMSSL suite x client
 
 func TestMain(m *testing.M) {
 	for _, k := range []string{"sign_cert_wrong_key", "enc_cert_wrong_key", "untrusted", "expired", "future", "wrongname", "enc_expired", "rsa_sign_cert", "rsa_enc_cert", "swapped", "client_wrong_key", "client_untrusted", "client_expired",
-		"ske_omitted", "ske_other_key", "ske_other_randoms", "ske_other_enccert", "ske_garbage", "cv_omitted", "cv_other_key", "cv_replayed", "cv_chain_confusion", "finished_wrong",
+		"ske_omitted", "ske_other_key", "ske_other_randoms", "ske_other_enccert", "ske_garbage", "cv_omitted", "cv_other_key", "cv_replayed", "cv_chain_confusion", "ske_sig_not_der", "cv_sig_not_der", "finished_wrong",
 		"mitm_byte", "mitm_suites", "mitm_ske_replay", "mitm_cke_replay", "mitm_cert_swap", "mitm_cert_attacker", "baseline"} {
 		R.Require("attack:" + k)
 	}
@@ -142,6 +143,42 @@ func TestC08_MisconfiguredPeers(t *testing.T) {
 
 // ---- (c) scripted endpoints without the signing key
 
+// notStrictDER rewrites a DER signature SEQUENCE{INTEGER r, INTEGER s} into an encoding that carries the same r and s
+// but is not strict DER: trailing bytes after the SEQUENCE, a third element inside it, a long-form length where the
+// short form is required, or an INTEGER with a redundant leading zero byte.
+func notStrictDER(t *rapid.T) func([]byte) []byte {
+	how := rapid.SampledFrom([]string{"trailing", "third_integer", "long_length", "padded_integer"}).Draw(t, "notder")
+	return func(sig []byte) []byte {
+		if len(sig) < 8 || sig[0] != 0x30 || int(sig[1]) != len(sig)-2 {
+			return sig
+		}
+		body := append([]byte{}, sig[2:]...)
+		switch how {
+		case "trailing":
+			return append(append([]byte{}, sig...), 0x00)
+		case "third_integer":
+			body = append(body, 0x02, 0x01, 0x01)
+			return append([]byte{0x30, byte(len(body))}, body...)
+		case "long_length":
+			return append([]byte{0x30, 0x81, byte(len(body))}, body...)
+		default:
+			// r: 02 len v... -> 02 len+1 00 v... (only non-minimal when v[0] < 0x80; otherwise pad s, else trailing)
+			rl := int(body[1])
+			if body[2] < 0x80 {
+				nb := append([]byte{0x02, byte(rl + 1), 0x00}, body[2:]...)
+				return append([]byte{0x30, byte(len(nb))}, nb...)
+			}
+			so := 2 + rl
+			if body[so+2] < 0x80 {
+				nb := append(append([]byte{}, body[:so]...), 0x02, body[so+1]+1, 0x00)
+				nb = append(nb, body[so+2:]...)
+				return append([]byte{0x30, byte(len(nb))}, nb...)
+			}
+			return append(append([]byte{}, sig...), 0x00)
+		}
+	}
+}
+
 func TestC08_ScriptedAttackers(t *testing.T) {
 	p := tlsx.GetPKI()
 	n := 0
@@ -149,7 +186,7 @@ func TestC08_ScriptedAttackers(t *testing.T) {
 	hx.Check(t, hx.N(300, 4000), func(t *rapid.T) {
 		n++
 		suite := rapid.SampledFrom(suites).Draw(t, "suite")
-		attack := rapid.SampledFrom([]string{"baseline", "ske_omitted", "ske_other_key", "ske_other_randoms", "ske_other_enccert", "ske_garbage", "finished_wrong", "cv_omitted", "cv_other_key", "cv_replayed", "cv_chain_confusion", "baseline_client"}).Draw(t, "attack")
+		attack := rapid.SampledFrom([]string{"baseline", "ske_omitted", "ske_other_key", "ske_other_randoms", "ske_other_enccert", "ske_garbage", "finished_wrong", "cv_omitted", "cv_other_key", "cv_replayed", "cv_chain_confusion", "baseline_client", "ske_sig_not_der", "cv_sig_not_der"}).Draw(t, "attack")
 		skip := gen.OneIn(t, "skipverify", 3)
 		seed := fmt.Sprint("k", n)
 		cl := []string{fmt.Sprintf("suite:%x", suite)}
@@ -159,7 +196,7 @@ func TestC08_ScriptedAttackers(t *testing.T) {
 		var r *tlsx.ScriptedResult
 		victimIsClient := true
 		switch attack {
-		case "baseline", "ske_omitted", "ske_other_key", "ske_other_randoms", "ske_other_enccert", "ske_garbage", "finished_wrong":
+		case "baseline", "ske_omitted", "ske_other_key", "ske_other_randoms", "ske_other_enccert", "ske_garbage", "finished_wrong", "ske_sig_not_der":
 			cc := tlsx.GMClient(p, "c"+seed)
 			cc.CipherSuites = []uint16{suite}
 			cc.InsecureSkipVerify = skip
@@ -174,6 +211,8 @@ func TestC08_ScriptedAttackers(t *testing.T) {
 					}
 					return []rgmssl.Out{o}
 				}
+			case "ske_sig_not_der":
+				so.SigMangle = notStrictDER(t)
 			case "ske_other_key":
 				so.SKESignD = p.SrvSignBad.SM2D
 			case "ske_other_randoms":
@@ -216,6 +255,8 @@ func TestC08_ScriptedAttackers(t *testing.T) {
 			switch attack {
 			case "cv_omitted":
 				co.OmitCertVerify = true
+			case "cv_sig_not_der":
+				co.SigMangle = notStrictDER(t)
 			case "cv_other_key":
 				co.CVSignD = p.ClientUntrusted.SM2D
 			case "cv_chain_confusion":
@@ -248,6 +289,9 @@ func TestC08_ScriptedAttackers(t *testing.T) {
 			}
 			R.Case(false, 0, append(cl, "attack:baseline")...)
 			return
+		}
+		if r.GM.HSErr == nil && strings.HasSuffix(attack, "_sig_not_der") {
+			t.Fatalf("the victim ACCEPTED a handshake signature that is a valid (r, s) in an encoding that is not the strict DER SEQUENCE of two INTEGERs (%s)\n%s", attack, desc)
 		}
 		if r.GM.HSErr == nil {
 			t.Fatalf("the victim COMPLETED a handshake with a peer that did not prove possession of the certified signing key (%s)\n%s", attack, desc)
